@@ -60,10 +60,11 @@ package indexer
 // MustMarshal returns a non-nil slice ([]byte{} when every field is zero) and cannot fail for four scalar fields.
 //@ func (c codec.BinaryCodec) MustMarshal(o proto.Message) (bz []byte)
 //@   assumed
+//@   requires typeof(o) == type(*evertypes.TxResult)
 //@   modifies nothing
 //@   ensures base(bz) != 0 && fresh(base(bz))
 //@   ensures typeof(o) == type(*evertypes.TxResult) ==> bytes(bz) == txResultEnc(unbox(o, type(*evertypes.TxResult)).Height, unbox(o, type(*evertypes.TxResult)).TxIndex, unbox(o, type(*evertypes.TxResult)).EthTxIndex, unbox(o, type(*evertypes.TxResult)).Failed)
-//@   panics only_if typeof(o) != type(*evertypes.TxResult)
+//@   panics never
 
 //@ func saveTxResult(codec codec.Codec, batch sdkdb.Batch, txHash common.Hash, txResult *evertypes.TxResult) (err error)
 //@   requires codec != nil && batch != nil && txResult != nil
@@ -107,7 +108,7 @@ package indexer
 
 // the m-th staged record (batch entries 2m and 2m+1): hash key -> TxResult{height, tx index, eth index, failed} and
 // (height, eth index) key -> hash, mutually inverse; indices within the given bounds
-//@ ghost func ixRecordOk(keys map[int]bytes, vals map[int]bytes, m int, height int, maxTxIndex int, ethBound int) bool = txResultDecHeight(vals[2 * m]) == height && 0 <= txResultDecTxIndex(vals[2 * m]) && txResultDecTxIndex(vals[2 * m]) <= maxTxIndex && 0 <= txResultDecEthTxIndex(vals[2 * m]) && txResultDecEthTxIndex(vals[2 * m]) < ethBound && txResultDecEthTxIndex(vals[2 * m]) <= txResultDecTxIndex(vals[2 * m]) && keys[2 * m + 1] == txIndexKeyOf(height, txResultDecEthTxIndex(vals[2 * m])) && keys[2 * m] == txHashKeyOf(bytesHash(vals[2 * m + 1]))
+//@ ghost func ixRecordOk(keys map[int]bytes, vals map[int]bytes, m int, height int, maxTxIndex int, ethBound int) bool = txResultDecHeight(vals[2 * m]) == height && 0 <= txResultDecTxIndex(vals[2 * m]) && txResultDecTxIndex(vals[2 * m]) <= maxTxIndex && 0 <= txResultDecEthTxIndex(vals[2 * m]) && txResultDecEthTxIndex(vals[2 * m]) < ethBound && txResultDecEthTxIndex(vals[2 * m]) <= txResultDecTxIndex(vals[2 * m]) && keys[2 * m + 1] == txIndexKeyOf(height, txResultDecEthTxIndex(vals[2 * m])) && keys[2 * m] == txHashKeyOf(hashOfBytes(vals[2 * m + 1]))
 
 //@ func (kv *KVIndexer) IndexBlock(block *cmttypes.Block, txResults []*abci.ExecTxResult) (err error)
 //@   requires kv != nil && block != nil && kv.db != nil && kv.mu != nil && kv.logger != nil && kv.clientCtx.TxConfig != nil && kv.clientCtx.Codec != nil
@@ -122,14 +123,15 @@ package indexer
 //@   ensures[C14.eth_index_is_count] err == nil ==> (exists b ref :: fresh(b) && dbVal[payload(kv.db)] == batchApplyVal(old(dbVal[payload(kv.db)]), batchKey[b], batchVal[b], batchLen[b]) && (forall m int :: (0 <= m && 2 * m < batchLen[b]) ==> (ixElig(block, txResultDecTxIndex(batchVal[b][2 * m])) && txResultDecEthTxIndex(batchVal[b][2 * m]) == ixCountTo(block, txResultDecTxIndex(batchVal[b][2 * m])))))
 //@   ensures[C14.other_batches_untouched] forall r ref :: !fresh(r) ==> (batchOpen[r] == old(batchOpen[r]) && batchLen[r] == old(batchLen[r]) && batchKey[r] == old(batchKey[r]) && batchVal[r] == old(batchVal[r]))
 //@   panics any
+//@   at call types.Tx.GetMsgs@1 assert[C14.eligible_when_indexed] ixElig(block, txIndex)
 //@ loop 1
-//@   invariant -1 <= rangeindex && rangeindex < len(block.Data.Txs) && 0 <= ethTxIndex && ethTxIndex <= rangeindex + 1
-//@   invariant batch != nil && fresh(payload(batch)) && batchOpen[payload(batch)] && batchDbOf(payload(batch)) == payload(kv.db)
-//@   invariant dbHas[payload(kv.db)] == old(dbHas[payload(kv.db)]) && dbVal[payload(kv.db)] == old(dbVal[payload(kv.db)])
-//@   invariant forall r ref :: !fresh(r) ==> (batchOpen[r] == old(batchOpen[r]) && batchLen[r] == old(batchLen[r]) && batchKey[r] == old(batchKey[r]) && batchVal[r] == old(batchVal[r]))
-//@   invariant batchLen[payload(batch)] % 2 == 0 && 0 <= batchLen[payload(batch)] && batchLen[payload(batch)] <= 2 * ethTxIndex
-//@   invariant forall m int :: (0 <= m && 2 * m < batchLen[payload(batch)]) ==> (ixRecordOk(batchKey[payload(batch)], batchVal[payload(batch)], m, block.Header.Height, rangeindex, ethTxIndex) && (txResults[txResultDecTxIndex(batchVal[payload(batch)][2 * m])].Code != 0 ==> txResultDecFailed(batchVal[payload(batch)][2 * m])))
-//@   invariant forall m1 int, m2 int :: (0 <= m1 && m1 < m2 && 2 * m2 < batchLen[payload(batch)]) ==> (txResultDecEthTxIndex(batchVal[payload(batch)][2 * m1]) < txResultDecEthTxIndex(batchVal[payload(batch)][2 * m2]) && txResultDecTxIndex(batchVal[payload(batch)][2 * m1]) < txResultDecTxIndex(batchVal[payload(batch)][2 * m2]))
-//@   invariant ethTxIndex == ixCountTo(block, rangeindex + 1)
-//@   invariant forall m int :: (0 <= m && 2 * m < batchLen[payload(batch)]) ==> (ixElig(block, txResultDecTxIndex(batchVal[payload(batch)][2 * m])) && txResultDecEthTxIndex(batchVal[payload(batch)][2 * m]) == ixCountTo(block, txResultDecTxIndex(batchVal[payload(batch)][2 * m])))
-//@   invariant forall r ref :: !fresh(r) ==> txSrc[r] == old(txSrc[r])
+//@   invariant[C14.loop_bounds] -1 <= rangeindex && rangeindex < len(block.Data.Txs) && 0 <= ethTxIndex && ethTxIndex <= rangeindex + 1
+//@   invariant[C14.loop_one_open_batch] batch != nil && fresh(payload(batch)) && batchOpen[payload(batch)] && batchDbOf(payload(batch)) == payload(kv.db)
+//@   invariant[C14.loop_db_untouched] dbHas[payload(kv.db)] == old(dbHas[payload(kv.db)]) && dbVal[payload(kv.db)] == old(dbVal[payload(kv.db)])
+//@   invariant[C14.loop_other_batches] forall r ref :: !fresh(r) ==> (batchOpen[r] == old(batchOpen[r]) && batchLen[r] == old(batchLen[r]) && batchKey[r] == old(batchKey[r]) && batchVal[r] == old(batchVal[r]))
+//@   invariant[C14.loop_batch_pairs] batchLen[payload(batch)] % 2 == 0 && 0 <= batchLen[payload(batch)] && batchLen[payload(batch)] <= 2 * ethTxIndex
+//@   invariant[C14.loop_records] forall m int :: (0 <= m && 2 * m < batchLen[payload(batch)]) ==> (ixRecordOk(batchKey[payload(batch)], batchVal[payload(batch)], m, block.Header.Height, rangeindex, ethTxIndex) && (txResults[txResultDecTxIndex(batchVal[payload(batch)][2 * m])].Code != 0 ==> txResultDecFailed(batchVal[payload(batch)][2 * m])))
+//@   invariant[C14.loop_records_ordered] forall m1 int, m2 int :: (0 <= m1 && m1 < m2 && 2 * m2 < batchLen[payload(batch)]) ==> (txResultDecEthTxIndex(batchVal[payload(batch)][2 * m1]) < txResultDecEthTxIndex(batchVal[payload(batch)][2 * m2]) && txResultDecTxIndex(batchVal[payload(batch)][2 * m1]) < txResultDecTxIndex(batchVal[payload(batch)][2 * m2]))
+//@   invariant[C14.loop_eth_index_is_count] ethTxIndex == ixCountTo(block, rangeindex + 1)
+//@   invariant[C14.loop_records_counted] forall m int :: (0 <= m && 2 * m < batchLen[payload(batch)]) ==> (ixElig(block, txResultDecTxIndex(batchVal[payload(batch)][2 * m])) && txResultDecEthTxIndex(batchVal[payload(batch)][2 * m]) == ixCountTo(block, txResultDecTxIndex(batchVal[payload(batch)][2 * m])))
+//@   invariant[C14.loop_tx_src_frame] forall r ref :: !fresh(r) ==> txSrc[r] == old(txSrc[r])
